@@ -153,4 +153,74 @@ theorem get_deleteAny (fs : FS) (p q : Path) :
       · subst hq; simp [hp]
       · simp [hq]
 
+theorem get_removeKey (fs : FS) (p q : Path) :
+    get (removeKey fs p) q = if p = q then none else get fs q := by
+  induction fs with
+  | nil => simp [removeKey, get]
+  | cons e fs ih =>
+    unfold removeKey at *
+    by_cases hp : e.1 = p
+    · simp only [List.filter_cons, hp, bne_self_eq_false, Bool.false_eq_true, if_false, ih, get_cons]
+      by_cases hq : p = q
+      · simp [hq]
+      · simp [hq]
+    · have : (e.1 != p) = true := by simp [hp]
+      simp only [List.filter_cons, this, if_true, get_cons, ih]
+      by_cases hq : e.1 = q
+      · subst hq; simp [Ne.symm hp]
+      · simp [hq]
+
+/-! ### the executable bit -/
+
+theorem setExec_same {fs : FS} {p : Path} {c : String} {x : Bool}
+    (h : get fs p = some (.file c x)) : setExec fs p x = fs := by
+  induction fs with
+  | nil => rfl
+  | cons e fs ih =>
+    rw [get_cons] at h
+    unfold setExec
+    by_cases he : e.1 = p
+    · simp only [he, if_true] at h ⊢
+      obtain ⟨k, n⟩ := e
+      simp only at h he ⊢
+      cases h
+      simp [he]
+    · simp only [he, if_false] at h ⊢
+      rw [ih h]
+
+theorem get_setExec_self {fs : FS} {p : Path} {c : String} {old : Bool} (x : Bool)
+    (h : get fs p = some (.file c old)) : get (setExec fs p x) p = some (.file c x) := by
+  induction fs with
+  | nil => simp [get] at h
+  | cons e fs ih =>
+    rw [get_cons] at h
+    unfold setExec
+    by_cases he : e.1 = p
+    · simp only [he, if_true] at h ⊢
+      obtain ⟨k, n⟩ := e
+      simp only at h he ⊢
+      cases h
+      simp [get_cons, he]
+    · simp only [he, if_false] at h ⊢
+      rw [get_cons]
+      simp only [he, if_false]
+      exact ih h
+
+/-- setting the bit and then setting it back re-creates the same list -/
+theorem setExec_setExec {fs : FS} {p : Path} {c : String} {old : Bool} (x : Bool)
+    (h : get fs p = some (.file c old)) : setExec (setExec fs p x) p old = fs := by
+  induction fs with
+  | nil => rfl
+  | cons e fs ih =>
+    rw [get_cons] at h
+    by_cases he : e.1 = p
+    · simp only [he, if_true] at h
+      obtain ⟨k, n⟩ := e
+      simp only at h he
+      cases h
+      simp [setExec, he]
+    · simp only [he, if_false] at h
+      simp only [setExec, he, if_false]
+      rw [ih h]
+
 end BreezyVerif.C13
